@@ -236,6 +236,10 @@ func genC12(t *rapid.T) *FileCase {
 			}
 		})
 	}
+	// constants named like poryswitch case keys: keys are never substituted
+	if rapid.IntRange(0, 3).Draw(t, "keyconst") == 0 {
+		f.Tops = append([]*Top{{K: "const", Const: &Const{Name: rapid.SampledFrom([]string{"A", "B"}).Draw(t, "keyconstname"), Val: []string{rapid.SampledFrom([]string{"zz", "B", "A", "1"}).Draw(t, "keyconstval")}}}}, f.Tops...)
+	}
 	c := &FileCase{File: f, Switches: map[string]string{}}
 	for _, v := range []string{"V", "W"} {
 		c.Switches[v] = rapid.SampledFrom([]string{"A", "B", "1", "zz", "_x"}).Draw(t, "sw"+v)
